@@ -54,9 +54,11 @@ MUTANTS = [
     ("M80", "ace.py", "                for item in ace_o_.dstport.items:\n                    ace_o = ace_o_.copy()", "                for item in ace_o_.dstport.items[:2]:\n                    ace_o = ace_o_.copy()", "C19 C02"),
     ("M81", "acl.py", "                aces: LAce = ace_o.ungroup_ports()\n                _items.extend(aces)\n                continue\n            if isinstance(ace_o, AceGroup):", "                aces: LAce = ace_o.ungroup_ports()\n                _items = aces + _items\n                continue\n            if isinstance(ace_o, AceGroup):", "C19 C02"),
     ("M82", "ace.py", "        if len(aces) == 1:\n            return [self]\n", "", "C19 C16"),
-    ("M90", "address_base.py", "            if supernet not in ipnets:\n                ipnets.insert(0, supernet)\n            continue", "            ipnets.append(supernet)\n            continue", "C14"),
     ("M91", "address_base.py", "        if [o for o in ipnets if ipnet.subnet_of(o)]:\n            continue", "        if [o for o in ipnets if ipnet.overlaps(o)]:\n            continue", "C14"),
     ("M92", "address_base.py", "    return sorted(addresses_)", "    return addresses_", "C14"),
+    ("M100", "remark.py", "        self._sequence = h.init_int(ace_d[\"sequence\"])\n        self._text", "        self._sequence = 0 if ace_d[\"sequence\"] == \"\" else h.init_int(ace_d[\"sequence\"]) + 0 * 1\n        self._text", "C06"),
+    ("M101", "address_ag.py", "        if self._sequence:\n            return f\"{self._sequence} {line_}\"", "        if self._sequence and self._platform != \"ios\":\n            return f\"{self._sequence} {line_}\"", "C06 C02"),
+    ("M102", "acl.py", "        ace = \"\\n\".join([f\"{self._indent}{o}\" for o in items])", "        ace = \"\\n\".join([f\"{self._indent or DEF_INDENT}{o}\" for o in items])", "C06"),
     ("M30", "port.py", "            return [ports[0] - 1] if ports else [65535]", "            return [ports[0]] if ports else [65535]", "C08"),
     ("M31", "port.py", "            return [ports[-1] + 1] if ports else [1]", "            return [ports[1] + 1] if ports else [1]", "C08"),
     ("M32", "port.py", "        ports = sorted(ports)\n        if operator == \"eq\":", "        if operator == \"eq\":", "C08"),
